@@ -17,6 +17,8 @@ Sites (anchors in /repo/src/lian):
   `arrayTypes0`    pinned commit: `list(set_of_node_type_strings)` (frozen)
 * `mockUnit`       lang/lang_analysis.py  GIRParser.parse: extern mock code?  (live: the scan's `is_extern` flag)
   `mockUnit0`      pinned commit: substring test on the unit path, which embeds the workspace location (frozen)
+* `originalPath`   preparation.py  ModuleSymbolsBuilder: source path of a unit (live: looked up by real path)
+  `originalPath0`  pinned commit: looked up by the path in the form -w was given (frozen)
 * `bundleExport`   util/loader.py       GeneralLoader.convert_active_bundle_to_dataframe  (`sorted(keys)`)
 * `callPathRows`   util/loader.py       CallPathLoader.export             (`enumerate(set)` — NOT sorted)
 * `numberModules`  preparation.py       ModuleSymbolsBuilder.scan_modules_by_scanning_workspace_dir
@@ -264,6 +266,21 @@ def mockUnit (isExtern : Bool) (_unitPath : String) : Bool := isExtern
 /-- pinned commit: `f"{DEFAULT_WORKSPACE}/{EXTERNS_DIR}" in file_path` — a substring test on the unit path.
 `marker` is that string, built by the harness from the live `config` constants. -/
 def mockUnit0 (marker : String) (unitPath : String) : Bool := hasInfix marker.toList unitPath.toList
+
+/-! ### `ModuleSymbolsBuilder`: the original (source) path of a scanned unit -/
+
+/-- `dst_file_to_src_file.get(key, "")`; the dict is keyed by REAL paths of the copied files -/
+def lookupPath (table : List (String × String)) (key : String) : String :=
+  match table.find? (fun kv => kv.1 == key) with
+  | some kv => kv.2
+  | none => ""
+
+/-- live code: the entry is looked up by its real path (`realpath` = `os.path.realpath`, a parameter). -/
+def originalPath (table : List (String × String)) (realpath : String → String) (entryPath : String) : String :=
+  lookupPath table (realpath entryPath)
+
+/-- pinned commit: looked up by `entry.path`, which has the form the workspace was given in (-w). -/
+def originalPath0 (table : List (String × String)) (entryPath : String) : String := lookupPath table entryPath
 
 /-! ### `GeneralLoader.convert_active_bundle_to_dataframe` -/
 
